@@ -35,7 +35,7 @@ def shards(tier):
 
 def required_counters(tier):
     return {'judged:operator-consistency': 200, 'judged:construction': 200, 'judged:mask-placement': 100, 'judged:commute-rotate': 50,
-            'judged:commute-to_sky': 50, 'judged:annulus-membership': 100, 'judged:annulus-area': 50,
+            'judged:commute-to_sky': 50, 'judged:commute-to_sky-membership': 500, 'judged:annulus-membership': 100, 'judged:annulus-area': 50,
             'monitor:contains:CompoundPixelRegion': 100, 'monitor:to_mask:CompoundPixelRegion:center': 50, 'judged:sky-compound-contains': 20, 'history-steps': 30,
             'unprojectable-sky-positions': 50, 'sky-annulus-cases': 20, 'sky-compounds-of-mixed-frames': 20, 'rotations-about-an-operand-centre': 20}
 
@@ -323,6 +323,23 @@ def run_case(case, obs):
                 exp = np.logical_not(exp)
             obs.check(bool(np.array_equal(r, np.broadcast_to(exp, r.shape))), 'sky-compound-membership-not-operator-of-operands',
                       f'{opname}: CompoundSkyRegion.contains differs from the operator applied to the operands\' answers', 'sky-compound-contains')
+            # ... and conversion commutes with the set operation as a whole: the sky compound says about the sky image of a position,
+            # and the compound converted back says about the position, what the pixel compound says (outside the band)
+            n0 = px.size
+            ins, dec = geom.contains_member(comp, px, py)
+            cx_, cy_, L_ = c01.region_scale(comp)
+            dec = np.asarray(dec).ravel() & (np.hypot(px - cx_, py - cy_).ravel() < 50 * L_ + 1e4)
+            here = np.broadcast_to(np.asarray(comp.contains(pc)), px.shape).ravel()
+            onsky = (r.ravel() if r.ndim else np.broadcast_to(r, (sc.size,)))[:n0]
+            backp = np.broadcast_to(np.asarray(back.contains(pc)), px.shape).ravel()
+            bad_s, bad_b = dec & (onsky != here), dec & (backp != here)
+            if bad_s.any() or bad_b.any():
+                i = int(np.flatnonzero(bad_s | bad_b)[0])
+                obs.violation('compound-membership-changes-under-conversion',
+                              f'{opname}: at ({px.ravel()[i]!r}, {py.ravel()[i]!r}) the pixel compound says {bool(here[i])}, its sky conversion {bool(onsky[i])}, '
+                              f'the conversion back {bool(backp[i])}; {int(bad_s.sum())} / {int(bad_b.sum())} positions differ')
+            else:
+                obs.ok(int(dec.sum()), 'commute-to_sky-membership')
     obs.check(S.fingerprint(comp) == fp0, 'compound-operation-mutates', 'compound changed during the case', 'construction')
 
 
